@@ -342,6 +342,172 @@ def _host_from_inputs(d, a):
     return [x["vid"][40:] for x in d["desc"]["args"]] != [x["vid"][40:] for x in a["desc"]["args"]]
 
 
+# ---------------------------------------------------------------------- project / build tree location
+
+LOC_CONFIGS = ["LA", "LB", "OA", "OB"]
+_RR_DATA = {"payload.txt": b"recipe relative payload\n", "sub/more.bin": b"\x00\x01more"}
+
+
+def _directed_location_project():
+    """one recipe sub::root in recipes/sub/root.yaml that imports recipes/sub/data recipe-relative, and a plain import"""
+    from gen import projects as G
+    P = G.Project()
+    P.recipes["sub/root"] = {"root": True,
+                             "checkoutSCM": {"scm": "import", "url": "data", "recipeRelative": True},
+                             "buildScript": "cp -a $1/* .", "packageScript": "cp -a $1/* ."}
+    P.recipes["plain"] = {"root": True, "checkoutSCM": {"scm": "import", "url": "common"},
+                          "buildScript": "cp -a $1/* .", "packageScript": "cp -a $1/* ."}
+    P.recipes["sub/deeper/user"] = {"root": True, "depends": ["sub::root"],
+                                    "checkoutSCM": [{"scm": "import", "url": "../data", "recipeRelative": True, "dir": "d"},
+                                                    {"scm": "import", "url": "common", "dir": "c", "prune": True}],
+                                    "buildScript": "echo $1 $2", "packageScript": "true"}
+    P.files["recipes/sub/data/data.txt"] = b"payload\n"
+    P.files["common/file.txt"] = b"common\n"
+    return P
+
+
+def _add_location_sensitive(P, rng):
+    """C03-local post-processing of a generated project: recipe-relative (and plain) import SCMs, in recipes directly
+    below recipes/ and in recipes of a sub-directory with the imported directory next to them"""
+    Q = P.copy()
+    for rel, data in _RR_DATA.items():
+        Q.files["recipes/rrdata/" + rel] = data
+        Q.files["recipes/loc/data/" + rel] = data
+        Q.files["src/a/" + rel] = data
+    stems = sorted(s for s, d in Q.recipes.items() if "multiPackage" not in d)
+    touched = []
+    for stem in rng.sample(stems, min(len(stems), rng.randrange(1, 4))):
+        d = Q.recipes[stem]
+        up = "../" * stem.count("/")
+        scm = {"scm": "import", "url": up + "rrdata", "recipeRelative": True, "dir": "rr%d" % len(touched)}
+        if rng.random() < 0.3:
+            scm["prune"] = True
+        old = d.get("checkoutSCM")
+        d["checkoutSCM"] = [scm] if old is None else (list(old) + [scm] if isinstance(old, list) else [old, scm])
+        if rng.random() < 0.4:
+            d["checkoutSCM"].append({"scm": "import", "url": "src/a", "dir": "pl%d" % len(touched)})
+        touched.append(stem)
+    # a new root package in a sub-directory of recipes/ that consumes some of the touched packages
+    deps = [s.replace("/", "::") for s in touched if rng.random() < 0.7]
+    r = {"root": True, "checkoutSCM": {"scm": "import", "url": "data", "recipeRelative": True},
+         "buildScript": "cp -a $1/* . ; echo \"${@:2}\"", "packageScript": "cp -a $1/* ."}
+    if deps:
+        r["depends"] = deps
+    Q.recipes["loc/rrroot"] = r
+    return Q
+
+
+def _location_jobs(base, Q, rng):
+    """(cfg, job) for the four locations: in-tree at A, in-tree at B (copy), out-of-tree build directories as set up by
+    `bob init PROJECT BUILD` (cmds/misc.py doInit: BUILD/.bob-project holds the absolute project path) for both"""
+    jobs = []
+    la = Q.write(os.path.join(base, "la", "proj"))
+    lb = Q.write(os.path.join(base, "lb", "some", "where else", "deeper", "proj"), rng)
+    oa_p = Q.write(os.path.join(base, "oa", "p"))
+    ob_p = Q.write(os.path.join(base, "ob", "x", "yy", "zzz", "p"), rng)
+    oa = os.path.join(base, "oa", "build")
+    ob = os.path.join(base, "ob", "bld", "tree")
+    for proj, build in ((oa_p, oa), (ob_p, ob)):
+        os.makedirs(build, exist_ok=True)
+        with open(os.path.join(build, ".bob-project"), "w") as f:
+            f.write(os.path.abspath(proj))
+    for cfg, root in zip(LOC_CONFIGS, (la, lb, oa, ob)):
+        jobs.append((cfg, {"root": root, "sandbox": False, "out": os.path.join(base, "out-%s.json" % cfg), "cap": 300,
+                           "bids": True, "project": None}))
+    return jobs
+
+
+def _evaluate_locations(ctx, projects, tag, timeout):
+    """projects: [(origin, Project)] -> [{'project': json, 'origin':…, 'results': {cfg: result}}]"""
+    recs, items, index = [], [], []
+    for pi, (origin, Q) in enumerate(projects):
+        rng = ctx.subrng("loccfg", tag, pi)
+        base = os.path.join(ctx.tmp, "%s-%d" % (tag, pi))
+        recs.append({"project": Q.to_json(), "origin": origin, "results": {}})
+        jobs = _location_jobs(base, Q, rng)
+        # in-tree and out-of-tree evaluations in different interpreters (hash seeds 0 / 1)
+        for hs, part in ((0, jobs[:2]), (1, jobs[2:])):
+            items.append(([j for _, j in part], hs, {}, timeout))
+            index.append([(pi, c) for c, _ in part])
+    import concurrent.futures as cf
+    ex = cf.ThreadPoolExecutor(min(12, os.cpu_count() or 4, max(1, len(items))))
+    try:
+        for idx, res in zip(index, ex.map(_run_jobs, items)):
+            for (pi, c), r in zip(idx, res):
+                recs[pi]["results"][c] = r
+    finally:
+        ex.shutdown(wait=True, cancel_futures=True)
+    return recs
+
+
+def check_location(ctx, rec, report=True):
+    out = []
+
+    def viol(what, sig):
+        out.append((what, {"kind": "location", "project": rec["project"], "origin": rec.get("origin")}, sig))
+        if report:
+            ctx.violation(*out[-1])
+
+    R = rec["results"]
+    for c in LOC_CONFIGS:
+        r = R.get(c)
+        if not isinstance(r, dict) or "crash" in r or "timeout" in r:
+            ctx.skip("location configuration %s: interpreter did not deliver (%s)" % (c, "timeout" if isinstance(r, dict) and "timeout" in r else "crash"))
+            if report:
+                ctx.count("location", c + ":undelivered")
+    A = R.get("LA")
+    if not _usable(A):
+        if isinstance(A, dict) and "error" in A:
+            if report:
+                ctx.count("location", "rejected project")
+            for c in LOC_CONFIGS[1:]:
+                if _usable(R.get(c)):
+                    viol("project is rejected in-tree (%s) but accepted in location configuration %s" % (A["error"], c),
+                         "accepted-depends-on-project-location")
+        return out
+    import hashlib
+    pf = hashlib.sha1(json.dumps(rec["project"], sort_keys=True).encode()).hexdigest()[:12]
+    ida = _ids(A)
+    nrr = sum(1 for s in A["steps"] if s.get("co") and s["valid"])
+    for c in LOC_CONFIGS[1:]:
+        r = R.get(c)
+        if isinstance(r, dict) and "error" in r:
+            viol("project is accepted in-tree but rejected in location configuration %s: %s" % (c, r["error"]),
+                 "accepted-depends-on-project-location")
+            continue
+        if not _usable(r):
+            continue
+        idc = _ids(r)
+        if report:
+            ctx.count("location", c + ":compared")
+            for k in idc:
+                ctx.case((pf, k, c), nontrivial=nrr > 0)
+        if idc != ida:
+            bad = sorted(k for k in set(ida) | set(idc) if ida.get(k) != idc.get(k))
+            what = "Variant-Id" if any(ida.get(k, ("",))[0] != idc.get(k, ("",))[0] for k in bad) else "Build-Id"
+            names = {"LB": "in-tree at another absolute path", "OA": "from an out-of-tree build directory (bob init)",
+                     "OB": "from an out-of-tree build directory of a copy at another absolute path"}
+            k0 = bad[0]
+            viol("%s of %s (%d steps) differs between the project evaluated in-tree and %s: %s / %s"
+                 % (what, bad[:3], len(bad), names[c], ida.get(k0, (None,))[0], idc.get(k0, (None,))[0]),
+                 "ids-depend-on-project-location")
+            break
+    return out
+
+
+def location(ctx):
+    """directed case first (mandatory), then post-processed generated projects (mandatory batch, fixed time-out)"""
+    from gen import projects as G
+    projects = [("directed", _directed_location_project())]
+    for i in range(ctx.scale(7, 40)):
+        rng = ctx.subrng("locproj", i)
+        projects.append(("gen%d" % i, _add_location_sensitive(G.gen_project(rng, rng.randrange(3, 9)), rng)))
+    recs = _evaluate_locations(ctx, projects, "loc", 240)
+    for rec in recs:
+        check_location(ctx, rec)
+    ctx.notes["location_projects"] = len(recs)
+
+
 # ---------------------------------------------------------------------- golden ids
 
 GOLDEN = ["checkouts", "env", "include", "sandbox", "tools"]
@@ -401,6 +567,7 @@ def golden(ctx, report=True):
 
 def oracle(ctx):
     golden(ctx)
+    location(ctx)
     ctx.notes["golden"] = "test on 5 recorded reference dumps (labelled: a test, not a proof)"
     n = ctx.scale(48, 480)
     nedits = ctx.scale(3, 5)
@@ -503,6 +670,11 @@ def replay(ctx, case):
     k = case.get("kind")
     if k == "golden":
         golden(ctx)
+        return
+    if k == "location":
+        rec = _evaluate_locations(ctx, [(case.get("origin"), G.Project.from_json(case["project"]))], "replayloc", 240)[0]
+        for what, c, sig in check_location(ctx, rec, report=False):
+            ctx.violation(what, c, sig)
         return
     P = G.Project.from_json(case["project"])
     edits = []
